@@ -328,6 +328,24 @@ def check(repo):
     r1.require(n_sinks >= 30, schemes[0].method("_Enc"), "sinks floor", "only %d sinks analysed (expected >= 30)" % n_sinks)
     r1.instance({"sinks_analysed": n_sinks})
     _check_iv(repo, r3)
+    # set-up keeps nothing on the scheme object: a memoised block would be handed out again, byte for byte, by the next set-up
+    r5 = Rule("R4.5", "set-up and token generation keep no state: ciphertexts and tokens are never replayed from an earlier call")
+    rules.append(r5)
+    from .c07 import Analyzer
+    an = Analyzer(repo)
+    for s in schemes:
+        for mname in ("_Enc", "EDBSetup", "_Trap", "TokenGen"):
+            fi = s.cls.methods.get(mname)
+            if fi is None:
+                continue
+            hidden = [x for x in an.sites(fi) if x[0] == ("self",)]
+            memo = [d for d in fi.decorators if any(k in d for k in ("cache", "memo"))]
+            if hidden or memo:
+                r5.fail_fn(fi, hidden[0][2] if hidden else fi.node, "%s keeps state on the scheme object" % mname,
+                           "%s.%s stores into the scheme object%s: entries produced by an earlier call can be emitted again unchanged, so two encryptions of one database "
+                           "under one key are no longer disjoint" % (s.name, mname, " / is memoised" if memo else ""))
+            else:
+                r5.ok({"scheme": s.name, "method": mname})
     return rules
 
 
